@@ -126,8 +126,11 @@ PLANS["C15"] = Plan(
                 "otherwise; the plan stays mutually consistent, in -n..n, without self-play; all stores fit the plan dtype; the search-space generator and the decoder agree on the game code: every "
                 "code appended by the real generator loop lies in [0, n*(n-1)), its quotient by n-1 is the home city chosen "
                 "for the pair (i, j) and its remainder is the other city squeezed past it - exactly what map_games decodes. "
-                "bounded (exhaustive in n <= 24/40, rounds <= 7/9): search-space composition (every pair `rounds` times, "
-                "balanced roles); multiplicity clause on samples",
+                "Ghost pair tables and invariants over the three generator loops prove that every pairing is appended exactly "
+                "`rounds` times and that the home / away roles of a pairing differ by at most one, for every n and every "
+                "number of rounds. bounded (exhaustive in n <= 24/40, rounds <= 7/9): per-team balance of home and away "
+                "games (a combinatorial property of the alternation in the last odd round) and the whole composition again; "
+                "multiplicity clause of decoded plans on samples",
     assumptions=["E1 for the game-plan dtype (holds -n..n)"],
 )
 
